@@ -259,7 +259,7 @@ _MDNS_FUNCS = ["simple_mdns::build_reply", "ResourceRecordManager::{new,add_auth
 reg("C13", [
     M("C13", "key", "mdns_store", "all 49 ordered pairs of names from a pool of 7 names (0..3 labels) over 5 shared symbolic labels of 1-2 bytes: "
       "get_key prefix/equality vs label-wise subdomain/equality, for all label byte values", _MDNS_FUNCS, params={'part': 'key'}),
-    M("C13", "reply", "mdns_store", "14 (quick) / 18 (thorough) store+query scenarios: 0-3 registered records (authoritative/cached; A, SRV, TXT; "
+    M("C13", "reply", "mdns_store", "16 (quick) / 20 (thorough) store+query scenarios: 0-3 registered records (authoritative/cached; A, SRV, TXT; "
       "class IN/CH symbolic) over the name pool incl. a.b vs ab and x vs xy collisions, 0-2 questions (TYPE/ANY x IN/ANY, unicast bit symbolic); "
       "all label bytes, addresses, ports, TTLs, ids symbolic", _MDNS_FUNCS, params={'part': 'reply'}),
 ], [
@@ -387,7 +387,7 @@ reg("C14", [
     M("C14", "name_step", "name_step", "inductive Name::parse step: any length, any iteration count", ["<Name as WireFormat>::parse"]),
     M("C14", "packet", "packet_bytes", "Packet::parse on fully symbolic datagrams of length 0,4,8,12..17 (quick)", ["Packet::parse"],
       params={'K_quick': 5, 'K_thorough': 9}),
-    M("C14", "ingest", "mdns_pipeline", "4 response scenarios: answers/additional records over a pool of names with arbitrary label bytes, "
+    M("C14", "ingest", "mdns_pipeline", "5 response scenarios (A records; one with a TXT record holding an empty and a short string): answers/additional records over a pool of names with arbitrary label bytes, "
       "service / own-instance names from the same pool: no panic, and exactly the admissible records are stored as cached", _PIPE_FUNCS,
       params={'part': 'ingest'}),
     M("C14", "reply_wire", "mdns_pipeline", "9 query scenarios against stores of 1-3 records (hostile label bytes): no panic; every Some(reply) "
@@ -398,11 +398,15 @@ reg("C14", [
     "outside this technique: the obligations cover the sequential handling functions that the receive loops call with the lock held",
     "the on_discovery channel is None in the ingest obligation (the Some branch only adds InstanceInformation::from_records, covered by C15)",
 ])
+reg("C12", [
+    M("C12", "instance_name", "mdns_pipeline", "escaped_instance_name / unescaped_instance_name applied to ARBITRARY strings of 0..3 (4) chars over the "
+      "full Unicode scalar range (what a received instance label can decode to): no panic", _PIPE_FUNCS, params={'part': 'escape'}),
+], [])
 reg("C15", [
-    M("C15", "escape", "mdns_pipeline", "unescape(escape(s)) == s for all strings of 0..3 (4) chars over the full Unicode scalar range", _PIPE_FUNCS,
+    M("C15", "escape", "mdns_pipeline", "unescape(s) does not panic and unescape(escape(s)) == s for all strings of 0..3 (4) chars over the full Unicode scalar range", _PIPE_FUNCS,
       params={'part': 'escape'}),
     M("C15", "filter", "mdns_pipeline", "ingest filter: own instance, the service name itself and non-subdomains are never stored; admissible "
-      "records always are (4 scenarios over the symbolic name pool)", _PIPE_FUNCS, params={'part': 'ingest'}),
+      "records always are (5 scenarios over the symbolic name pool)", _PIPE_FUNCS, params={'part': 'ingest'}),
     M("C15", "attributes", "txt_text", "attribute maps (1-2 entries; absent / empty / non-empty values) survive TXT::try_from(map) -> attributes()",
       ["<TXT as TryFrom<HashMap<String, Option<String>>>>::try_from", "TXT::attributes"], params={'part_only': 'attr'}),
     M("C15", "instance", "instance_rt", "end to end: InstanceInformation -> into_records -> compressed packet -> Packet::parse -> from_records on 5 (8) "
